@@ -5,9 +5,10 @@ import Driver.OpsTopo
 import Driver.OpsMesh
 import Driver.OpsSolve
 import Driver.OpsHistory
+import Driver.OpsTransfer
 open LapyVerif.Driver
 
-def allOps : List (String × P String) := femOps ++ diffGeoOps ++ topoOps ++ meshOps ++ solveOps ++ heatOps ++ historyOps ++ ctorOps
+def allOps : List (String × P String) := femOps ++ diffGeoOps ++ topoOps ++ meshOps ++ solveOps ++ heatOps ++ historyOps ++ ctorOps ++ transferOps
 
 def handle (line : String) : String :=
   let toks := ((line.trimAscii.toString.splitOn " ").filter (· ≠ "")).toArray
